@@ -739,7 +739,8 @@ def write_tty(data: bytes) -> None:
     Args:
         data: Data to be written.
     """
-    os.write(_tty_fd, data)
+    while data:  # a write may be partial e.g when interrupted by a signal
+        data = data[os.write(_tty_fd, data) :]
     try:
         termios.tcdrain(_tty_fd)
     except termios.error:  # "Permission denied" on some platforms e.g Termux
